@@ -658,3 +658,12 @@ def _c02_dup_functions(rec):
             sig = (len(n.args.args), len(n.body))
             by_body.setdefault(sig, []).append([ast.dump(d) for d in n.args.defaults + [d for d in n.args.kw_defaults if d is not None]])
     return any(len({tuple(d) for d in v}) > 1 for v in by_body.values() if len(v) > 1)
+
+
+# ----------------------------------------------------------------------------------------- C07
+@classifier("safe-mode-drops-underscore-assignment")
+def _c07_underscore(rec):
+    """`_ = value` at module level is deleted in safe mode too when nothing reads `_`: has_side_effect treats every assignment to `_` as meaningless and
+    delete_pointless_statements takes no preserve set."""
+    d = rec.get("detail") or {}
+    return rec.get("kind") == "surface_name_lost" and d.get("name") == "_"
